@@ -110,13 +110,18 @@ theorem rejected (s : Scanner) (pos : Nat) (r r2 : DS) (res2 : Res) (q : List Wo
   cases res2 with
   | none => exact ⟨_, rfl, rfl, t3, t1⟩
   | some e2 =>
-    refine ⟨_, rfl, ?_, ?_, ?_⟩
-    · show (Scanner.outside (scanCfg En.lang zeroThr) _ (wt w)).parser = _
-      rw [outside_parser]
-    · show List.map (·.text) (Scanner.outside (scanCfg En.lang zeroThr) _ (wt w)).tracker.queue = _
-      rw [outside_queue]; exact t3
-    · show (Scanner.outside (scanCfg En.lang zeroThr) _ (wt w)).tracker.onHold = _
-      rw [outside_onHold]; exact t1
+    -- `Incomplete` on the fresh parser leaves the scanner as it is; any other error goes through `outside`,
+    -- which touches neither the parser nor the queue nor the hold
+    cases e2 with
+    | incomplete => exact ⟨_, rfl, rfl, t3, t1⟩
+    | overlap | nan | frozen =>
+      refine ⟨_, rfl, ?_, ?_, ?_⟩
+      · show (Scanner.outside (scanCfg En.lang zeroThr) _ (wt w)).parser = _
+        rw [outside_parser]
+      · show List.map (·.text) (Scanner.outside (scanCfg En.lang zeroThr) _ (wt w)).tracker.queue = _
+        rw [outside_queue]; exact t3
+      · show (Scanner.outside (scanCfg En.lang zeroThr) _ (wt w)).tracker.onHold = _
+        rw [outside_onHold]; exact t1
 
 /-- a refused word (any error but `Incomplete`, builder unchanged) while the number `r` is open -/
 theorem step_rej (s : Scanner) (pos : Nat) (r r2 : DS) (res2 : Res) (e : Err) (q : List Word) (text : Word)
